@@ -2,8 +2,9 @@ use std::{num::ParseIntError, str::FromStr};
 
 use crate::{
     util::{
-        constants::{BUG_MSG, SECS_PER_DAY},
-        date::convert::{weekdays_in_month, year_doy_to_days, year_month_to_doy},
+        constants::{BUG_MSG, DAYS_TO_1970_I64, SECS_PER_DAY},
+        date::convert::{year_month_to_doy, year_to_days},
+        leap::is_leap_year,
     },
     DateTime, DateUtilities,
 };
@@ -118,33 +119,41 @@ impl AlternateLocalTimeType {
 }
 
 fn rule_to_local_timestamp(start: &RuleDay, time: i32, timestamp: i64) -> i64 {
-    let date_days = match start {
+    let year = DateTime::from_timestamp(timestamp).year();
+    let year_start = year_to_days(year);
+
+    // Zero-based day of the year on which the rule applies.
+    // Calculated without the date range checks, as the rule of the first and last valid year can
+    // point to a day outside of the valid date range.
+    let day_of_year = match start {
+        // February 29 is never counted
         RuleDay::JulianDayWithoutLeap(doy) => {
-            let year = DateTime::from_timestamp(timestamp).year();
-            year_doy_to_days(year, *doy, true).unwrap()
+            let doy = *doy as i64 - 1;
+            if is_leap_year(year) && doy >= 59 {
+                doy + 1
+            } else {
+                doy
+            }
         }
-        RuleDay::JulianDayWithLeap(doy) => {
-            let year = DateTime::from_timestamp(timestamp).year();
-            year_doy_to_days(year, doy + 1, false).unwrap()
-        }
+        // February 29 is counted in leap years
+        RuleDay::JulianDayWithLeap(doy) => *doy as i64,
         RuleDay::MonthWeekDay(month, week, day) => {
-            let year = DateTime::from_timestamp(timestamp).year();
-
-            let weekdays_in_month = weekdays_in_month(year, *month as u32, *day);
-
-            let day_of_month = match week {
-                5 => weekdays_in_month.last().unwrap(),
-                _ => &weekdays_in_month[*week as usize - 1],
-            };
-
-            let (start, _) = year_month_to_doy(year, *month as u32).unwrap();
-            year_doy_to_days(year, start + day_of_month, false).unwrap()
+            // Month, week and day are validated when parsing the rule
+            let (month_start, month_days) = year_month_to_doy(year, *month as u32).expect(BUG_MSG);
+            let month_start = month_start as i64;
+            // 0001-01-01 is a Monday
+            let month_start_wday = (year_start + month_start + 1).rem_euclid(7);
+            let mut day_of_month =
+                (*day as i64 - month_start_wday).rem_euclid(7) + (*week as i64 - 1) * 7;
+            // Week 5 means the last week of the month
+            if day_of_month >= month_days as i64 {
+                day_of_month -= 7;
+            }
+            month_start + day_of_month
         }
     };
-    let time = time as i64;
-    DateTime::from_seconds(date_days as i64 * SECS_PER_DAY as i64 + time)
-        .unwrap()
-        .timestamp()
+
+    (year_start + day_of_year - DAYS_TO_1970_I64) * SECS_PER_DAY as i64 + time as i64
 }
 
 fn remove_designation(cursor: &mut Cursor) -> Result<(), TimeZoneError> {
